@@ -149,6 +149,10 @@ def gen_cases(rng, ctx):
         model = line("c07_run", [[T]] + b.ops)
         cases.append(Case(impl, model, kind="live:" + fam, nontrivial=True,
                           meta={"ops": b.ops, "gauge": b.expect_gauge}))
+    # an error on the reading side of a flow's socket (the peer answered and went away, the client sent once more)
+    for t in ([300, 200, 500] if thorough else [300, 200]):
+        l = line("c07_read_error", [[t]])
+        cases.append(Case(l, l, kind="live:read-side-socket-error", nontrivial=True, meta={"read_error": True, "T": t}))
     return cases
 
 
@@ -156,6 +160,24 @@ def judge(case, impl, model, spec, ctx):
     if impl == "999":
         return [("violation", "the multiplexer harness panicked")]
     if impl == "996":
+        return []
+    if case.meta.get("read_error"):
+        q1, later, reply, by, alive, left, free = untok(impl.split()[0])
+        what = "peer answers and goes away, client sends once more (socket error on the flow's reading side), peer returns on the same port"
+        if not q1:
+            return [("disagree", "%s: the first datagram never reached the peer" % what)]
+        if not alive or not by:
+            return [("violation", "%s: the error of one flow %s" % (what, "ended the multiplexer" if not alive else "disturbed another flow"))]
+        if not later:
+            return [("violation", "%s: none of three later datagrams on the same (source, destination) pair reached the peer: "
+                                  "the pair is black-holed instead of starting a fresh flow" % what)]
+        if not reply:
+            return [("violation", "%s: the reply on the fresh flow did not come back labelled for the client" % what)]
+        if left != 0 or not free:
+            return [("violation", "%s: after more than two timeouts of silence %d outbound socket(s) are still counted%s"
+                                  % (what, left, "" if free else " and the failed flow's socket is still open"))]
+        if model is not None and impl != model:
+            return [("disagree", "%s: %s vs model %s" % (what, impl, model))]
         return []
     out = []
     io = [untok(t) for t in impl.split()]
